@@ -22,7 +22,7 @@ func init() {
 	}
 	Profiles["C04"] = []Profile{{Name: "conditional", Weight: 6, Gen: GenC04}, {Name: "dav-passthrough", Weight: 1, Gen: GenC04Passthrough}, {Name: "conditional-memfs", Weight: 3, Gen: GenC04Memfs}}
 	Profiles["C14"] = []Profile{{Name: "client-faults", Weight: 10, Gen: GenC14}, {Name: "client-every-offset-and-status", Weight: 1, Gen: GenC14Exhaustive}}
-	Profiles["C13"] = []Profile{{Name: "dav-server-faults", Weight: 8, Gen: GenC13}, {Name: "dav-every-offset", Weight: 1, Gen: GenC13Exhaustive}, {Name: "overlap", Weight: 1, Gen: GenC02Overlap}}
+	Profiles["C13"] = []Profile{{Name: "dav-server-faults", Weight: 8, Gen: GenC13}, {Name: "dav-every-offset", Weight: 1, Gen: GenC13Exhaustive}, {Name: "overlap", Weight: 2, Gen: GenC02Overlap}}
 	Profiles["C05"] = []Profile{{Name: "api-clients", Weight: 1, Gen: GenC05}}
 	Profiles["C18"] = []Profile{
 		{Name: "concurrent", Weight: 1, Gen: GenC18Conc},
